@@ -139,6 +139,7 @@ var c16Fixed = []string{
 	// concatenation with an empty operand is still a fresh array
 	"a := [1 2]\nb := a + []\nb[0] = 9\nc := [] + a\nc[1] = 8\nz := [0]\ne := z[1:]\nd := e + a\nd[0] = 7\nacc := z[1:]\nrow := [1 2]\nfor i := range 2\n    acc = acc + row\n    acc[0] = acc[0] + 10 + i\nend\n",
 	"acc := [0]\nfor i := range 1 3\n    acc = acc + [i*2]\nend\nw6 := acc + [6]\nw7 := acc + [7]\nw6[0] = -1\nsame := acc + acc[3:]\nsame[1] = 99\nw8 := w6 + [8]\nw9 := w6 + [9]\n",
+	"g := 10\nr := 0\nif true\n    t := 1\n    t = t + 1\nend\nif true\n    g := g + 5\n    r = g\nend\nfor i := range 2\n    g := g * 2 + i\n    r = r + g\nend\n",
 	// a block that declares nothing around a block that declares locals: the inner locals need slots of their own
 	"total := 0\nfor i := range 3\n    if i >= 0\n        bonus := 10\n        total = total + i + bonus\n    end\nend\n",
 	"r := 0\nwhile r < 1\n    if true\n        a := 5\n        r = 1 + a\n    end\nend\n",
